@@ -199,7 +199,9 @@ class Executor:
             crashes += 1
             rest = rest[len(got) + 1:]
             if crashes >= max_crashes:
-                raise Infra("executor crashed %d times - giving up (last stderr: %s)" % (crashes, self.stderr[-300:]))
+                # a crash storm is an observation too: the crashes seen so far carry the report, the rest of the batch is not run
+                outs.extend(["R skipped 0000000000000000 0 0000000000000000 - 0 len=0 data=- dirty=0 ret=0 res=-"] * len(rest))
+                break
         return outs
 
     def describe(self):
@@ -302,6 +304,8 @@ class Verdict:
         self.assumptions = []
         self.findings = load_findings()
         self._keys = set()
+        self.growth = None        # name of the growth specification being validated (see growth_scope)
+        self.notes = []           # deviations from growth specifications: reported, never a verdict on the listed property
 
     def add_tlc(self, name, res):
         self.cov["states"] += res.distinct
@@ -313,11 +317,31 @@ class Verdict:
         if len(self.cov["samples"]) < limit:
             self.cov["samples"].append(s)
 
+    def growth_scope(self, name):
+        """Inside this scope the code is compared with a specification that says MORE than the listed property (what an example
+        program prints, in which order it presents samples ...).  A deviation from it is reported as a NOTE and recorded in the
+        evidence, but it is not a violation of the property: a change of an example's output format must not raise an alarm.
+        Observations the property does speak about (crash, hang, termination) are reported with hard_violation()."""
+        import contextlib
+        @contextlib.contextmanager
+        def cm():
+            old = self.growth; self.growth = name
+            try: yield
+            finally: self.growth = old
+        return cm()
+
+    def hard_violation(self, key, desc, replay):
+        old = self.growth; self.growth = None
+        try: self.violation(key, desc, replay)
+        finally: self.growth = old
+
     def violation(self, key, desc, replay):
         """Report one violation; `key` identifies the failing input/site (used for known findings)."""
         if key in self._keys:
             return
         self._keys.add(key)
+        if self.growth:
+            self.notes.append((self.growth, key, desc)); return
         for f in self.findings:
             if f["property"] == self.pid and f["kind"] == "finding" and f["key"] == key:
                 self.known.append((key, f["text"]))
@@ -341,7 +365,10 @@ class Verdict:
             print("  key: %s\n  %s" % (key, desc))
         if len(self.violations) > 50:
             print("  ... and %d more violations" % (len(self.violations) - 50))
+        for scope, key, desc in self.notes[:20]:
+            print("NOTE: property=%s growth specification %s (says more than the property; not a verdict on it): %s\n  %s" % (self.pid, scope, key, desc[:400]))
         cov = dict(self.cov)
+        cov["growth_spec_deviations"] = [{"specification": s_, "key": k_} for s_, k_, _ in self.notes[:100]]
         cov["violation_keys"] = [k for k, _, _ in self.violations[:200]]
         cov["known_findings_seen"] = [k for k, _ in self.known]
         ev = {"property_id": self.pid, "tier": self.tier, "seed": self.seed, "level": self.level, "coverage": cov,
